@@ -153,7 +153,7 @@ class ClassM:
         self.name = name
         self.fields = list(fields)      # declaration order
         self.opts = dict(opts or {})    # only explicitly passed class options
-        self.post_init = post_init      # None | 'ok' | 'raise' | ('raise_if', fieldname, value)
+        self.post_init = post_init      # None | 'ok' | 'raise' | ('raise_if', fieldname, value) | ('raise_if_set', fieldname)
         self.serial = next(_serial)
 
     # effective options (pane defaults)
@@ -544,6 +544,10 @@ def build_class(spec: ClassM, base=None, extra_ns=None):
             if isinstance(_pi, tuple) and _pi[0] == 'raise_if':
                 if getattr(self, _pi[1], None) == _pi[2]:
                     raise KeyError(f"bad {_pi[1]}")
+            if isinstance(_pi, tuple) and _pi[0] == 'raise_if_set':
+                # "this one is derived: do not give it" - decided by the record of explicitly set fields
+                if _pi[1] in self.dict(set_only=True):
+                    raise ValueError(f"{_pi[1]} must not be given")
         ns['__post_init__'] = __post_init__
     if extra_ns:
         ns.update(extra_ns)
